@@ -26,7 +26,8 @@ ASSUMPTIONS = [
     "out-of-equilibrium particles excluded",
 ]
 
-FSCALE = {"xsm2": [10.0, 7.0], "xsm3": [10.0, 7.0, 5.0]}
+FSCALE = {"xsm2": [10.0, 7.0], "xsm3": [10.0, 7.0, 5.0], "cubicS": [10.0, 7.0]}
+SPECTATOR = {"cubicS": 1}  # index (original labelling) of a field that is zero in both phases: its wall width/offset are undefined (zero amplitude)
 
 
 def case_pair(c: dict) -> dict:
@@ -71,6 +72,13 @@ def case_pair(c: dict) -> dict:
     # wall shape: 10x the largest spread between relabelled runs observed on the unchanged tree (6e-4 in the widths between
     # the two choices of the pinned field, 1e-5 otherwise); the solver's stopping rule gives no sharper a-priori bound
     wtol = 5e-3
+    if c["base"] in SPECTATOR:
+        # only the fields that take part in the transition have a wall: compare their widths, nothing about the spectator's
+        live = [i for i in range(len(perm)) if perm[i] != SPECTATOR[c["base"]]]
+        r.close("widths-permuted(live fields)", got["widths"][live] / ref["widths"][[perm[i] for i in live]], 1.0, wtol)
+        r.tag("spectator-first" if perm[0] == SPECTATOR[c["base"]] else "spectator-not-first")
+        ident = perm == sorted(perm) and min(signs) > 0 and not np.any(shift)
+        return r.result(nontrivial=not ident)
     # widths: the SET of widths is invariant; with a known permutation: widths'[i] = widths[perm[i]]
     r.close("widths-permuted", got["widths"] / ref["widths"][perm], 1.0, wtol)
     r.close("widths-multiset", np.sort(got["widths"]) / np.sort(ref["widths"]), 1.0, wtol)
@@ -99,10 +107,12 @@ def case_pair(c: dict) -> dict:
 
 def cases(tier):
     out = []
-    bases = [("xsm2", 100.0)] if tier == "quick" else [("xsm2", 100.0), ("xsm2", 95.0), ("xsm3", 100.0)]
+    bases = [("xsm2", 100.0), ("cubicS", 100.0)] if tier == "quick" else [("xsm2", 100.0), ("xsm2", 95.0), ("xsm3", 100.0), ("cubicS", 100.0), ("cubicS", 95.0)]
     for base, Tn in bases:
-        n = 2 if base == "xsm2" else 3
+        n = 3 if base == "xsm3" else 2
         shifts = [[0.0] * n, [37.0, -11.0, 23.0][:n], [400.0, 650.0, -500.0][:n]]
+        if base == "cubicS" and tier == "quick":
+            shifts = shifts[:2]
         for perm, signs in MD.hyperoctahedral(n):
             for sh in shifts:
                 out.append(dict(base=base, Tn=Tn, perm=perm, signs=signs, shift=sh, M=20,
